@@ -247,6 +247,41 @@ func concOp(kind int, seed int64) string {
 			return "decerr"
 		}
 		return fmt.Sprint(len(b)) + snapJSON(project(tn, p))
+	case 16: // Build with every coding of the protocol as a candidate (the widest fan-out), contexts left alone
+		proto := []string{"CMPP", "SMPP"}[rr.Intn(2)]
+		var pdc []datacoding.ProtocolDataCoding
+		for _, v := range batchValid[proto] {
+			pdc = append(pdc, toPDC(proto, v))
+		}
+		if proto == "CMPP" {
+			pdc = append(pdc, toPDC(proto, 4)) // (an undefined number as the fifth candidate)
+		}
+		txt := strings.Repeat("plain ascii text 0123456789 ", 1+rr.Intn(12))
+		parts, a, err := protocol.NewBatchDataCodingEncoder().Protocol(protocol.Protocol(proto)).Content(txt, byte(rr.Intn(256))).DataCodings(pdc).Build(context.Background())
+		return fmt.Sprint(parts, a, err != nil)
+	case 17: // one builder of the caller's own, used for several requests in a row
+		proto := []string{"CMPP", "SMPP"}[rr.Intn(2)]
+		b := protocol.NewBatchDataCodingEncoder().Protocol(protocol.Protocol(proto))
+		out := ""
+		for k := 0; k < 3; k++ {
+			var pdc []datacoding.ProtocolDataCoding
+			for _, v := range batchValid[proto] {
+				if rr.Intn(2) == 0 {
+					pdc = append(pdc, toPDC(proto, v))
+				}
+			}
+			pdc = append(pdc, toPDC(proto, 8))
+			txt := randText(rr, 1+rr.Intn(200))
+			if rr.Intn(2) == 0 {
+				txt = strings.Repeat("plain ascii ", 1+rr.Intn(30))
+			}
+			parts, a, err := b.Content(txt, byte(rr.Intn(256))).DataCodings(pdc).Build(context.Background())
+			out += fmt.Sprint(parts, a, err != nil)
+			if k == 0 {
+				runtime.Gosched()
+			}
+		}
+		return out
 	default: // decode via dispatcher-less IDecode + relay
 		tn := typeNames[rr.Intn(len(typeNames))]
 		a := defaultAssign(rr, tn, true)
@@ -293,7 +328,7 @@ func runConc(c Case, tr *Tracer) {
 	ids := make([][]int, ng)
 	for g := 0; g < ng; g++ {
 		for i := 0; i < nops; i++ {
-			o := opd{rr.Intn(15), rr.Int63()}
+			o := opd{rr.Intn(18), rr.Int63()}
 			if i == 0 && g%2 == 0 {
 				o.kind = 9 // every second goroutine starts with a failing encode
 			}
@@ -315,8 +350,8 @@ func runConc(c Case, tr *Tracer) {
 	// the tail: after a barrier every goroutine runs the SAME kind of call again and again on values of its own, so
 	// that calls into one piece of library code really overlap (the pools' own atomics order most other accesses)
 	tailFrom := nops
-	hk := int(uint(caseInt(c, "t")) % 15)
-	reps := map[int]int{2: 3, 3: 3, 4: 3, 8: 3, 0: 20, 1: 20, 7: 20, 9: 20, 10: 20, 14: 6}[hk]
+	hk := int(uint(caseInt(c, "t")) % 18)
+	reps := map[int]int{2: 3, 3: 3, 4: 3, 8: 3, 0: 20, 1: 20, 7: 20, 9: 20, 10: 20, 14: 6, 16: 6, 17: 4}[hk]
 	if reps == 0 {
 		reps = 100
 	}
@@ -414,7 +449,7 @@ func runConc(c Case, tr *Tracer) {
 			}(g)
 		}
 		close(start)
-		wg.Wait()
+		waitOrReport(&wg, tr)
 		if rep == 0 {
 			packet.VerifPoolHook = nil
 		}
@@ -538,4 +573,59 @@ func countRaceReports() int {
 		n += strings.Count(string(b), "WARNING: DATA RACE")
 	}
 	return n
+}
+
+// waitOrReport waits for the goroutines of a program.  Calls that take milliseconds and have not returned after two
+// minutes, with goroutines blocked (not running) inside the library, are calls that do not return: the program ends
+// with an End event that says so.  Goroutines that are still running or runnable mean a slow machine: no verdict.
+func waitOrReport(wg *sync.WaitGroup, tr *Tracer) {
+	done := make(chan struct{})
+	go func() { wg.Wait(); close(done) }()
+	limit := 120 * time.Second
+	if v, err := strconv.Atoi(os.Getenv("VERIF_CONC_HANG_S")); err == nil && v > 0 {
+		limit = time.Duration(v) * time.Second
+	}
+	select {
+	case <-done:
+		return
+	case <-time.After(limit):
+	}
+	buf := make([]byte, 1<<24)
+	buf = buf[:runtime.Stack(buf, true)]
+	blocked, busy, where := 0, 0, ""
+	for _, g := range strings.Split(string(buf), "\n\n") {
+		if !strings.Contains(g, "go-sms-protocol") || !strings.Contains(g, "concOp") {
+			continue // not one of the program's calls into the library
+		}
+		head := g
+		if i := strings.Index(g, "\n"); i > 0 {
+			head = g[:i]
+		}
+		switch {
+		case strings.Contains(head, "[running") || strings.Contains(head, "[runnable") || strings.Contains(head, "[syscall"):
+			busy++
+		case strings.Contains(head, "[chan ") || strings.Contains(head, "[select") || strings.Contains(head, "[semacquire") ||
+			strings.Contains(head, "[sync.") || strings.Contains(head, "[IO wait"):
+			blocked++
+			if where == "" {
+				lines := strings.Split(g, "\n")
+				for _, ln := range lines[1:] {
+					if strings.Contains(ln, "go-sms-protocol") && !strings.HasPrefix(ln, "\t") {
+						where = strings.TrimSpace(ln)
+						break
+					}
+				}
+			}
+		}
+	}
+	if blocked == 0 || busy > 0 {
+		fmt.Fprintf(os.Stderr, "conc: program not finished after %v (%d goroutines blocked in the library, %d busy): no verdict\n", limit, blocked, busy)
+		os.Exit(2)
+	}
+	if len(where) > 160 {
+		where = where[:160]
+	}
+	tr.emit(Ev{"ev": "End", "races": 0, "crash": false, "hung": true, "msg": fmt.Sprintf("%d calls blocked, e.g. in %s", blocked, where), "site": "no-return"})
+	tr.close()
+	os.Exit(0)
 }
